@@ -701,6 +701,11 @@ def count_branches(real, res):
                     res.count('branch:uri-attribute-seen')
                     if ':' in v:
                         res.count('branch:uri-attribute-with-colon')
+                        head = v.split(':', 1)[0]
+                        if '\n' in head or '\r' in head or '&#10' in head or 'NewLine' in head:
+                            res.count('branch:uri-line-break-before-colon')
+                        if any(ch in head for ch in '+-.'):
+                            res.count('branch:uri-scheme-punctuation')
                 if an in r['safe_attrs'] and an == 'style':
                     res.count('branch:style-attribute-seen')
                     if '\\' in v:
@@ -709,6 +714,8 @@ def count_branches(real, res):
                         res.count('branch:style-with-comment')
         elif e[0] == 'E' and open_tags:
             open_tags.pop()
+        elif e[0] == 'PI' and ('>' in e[1] or '>' in e[2]):
+            res.count('branch:pi-with-gt')
     for an, n in kept.items():
         if an in r['uri_attrs']:
             res.count('branch:uri-attribute-kept', n)
